@@ -2,8 +2,22 @@
 (* the large view universes (kept out of RegistryViewMC: TLC evaluates every constant definition at start-up) *)
 EXTENDS RegistryViewMC
 
-\* every sequence of <= 2 shapes x accesses (order matters for Unset) that registry.New accepts; <= 3 for simulation
-Views2 == {v \in {<<x>> : x \in Shapes1} \cup {<<x, y>> : x \in Shapes1, y \in Shapes1} : ValidView(v)}
+\* thorough universe: every single shape x access, and every pair of shapes that interact (same storage path,
+\* whole-map + placeholder, nested + sibling, same parent map) x accesses; both orders where the rule order can
+\* matter (Unset walks the rules in order).  Independent rules only repeat the single-shape behaviour.
+Pairs(X, Y) == {<<x, y>> : x \in X, y \in Y}
+SA == {ShA(a) : a \in Acc}
+SF == {ShF(a) : a \in Acc}
+SC == {ShC(a) : a \in Acc}
+SCk == {ShCk(a) : a \in Acc}
+SD == {ShD(a, b) : a \in Acc, b \in Acc}
+SDq == {ShDq(a) : a \in Acc}
+SE == {ShE(a) : a \in Acc}
+SEk == {ShEk(a) : a \in Acc}
+SH == {ShH(a) : a \in Acc}
+Views2 == {v \in {<<x>> : x \in Shapes1}
+                 \cup Pairs(SA, SF) \cup Pairs(SC, SCk) \cup Pairs(SCk, SC) \cup Pairs(SD, SDq) \cup Pairs(SDq, SD)
+                 \cup Pairs(SD, SH) \cup Pairs(SE, SEk) \cup Pairs(SEk, SE) \cup Pairs(SDq, SH) : ValidView(v)}
 Views3 == {v \in {Append(w, x) : w \in ViewsQuick, x \in Shapes1} : ValidView(v)}
 
 
